@@ -10,12 +10,15 @@
 #define V_ASSUME(c) do { if (!(c)) { printf("REPLAY: precondition not met natively: %s\n", #c); exit(3); } } while (0)
 #define V_ASSERT(c, msg) do { if (!(c)) { printf("REPLAY-FAIL: obligation violated on the real code: %s\n", msg); exit(1); } } while (0)
 #define V_CANARY(msg) do { } while (0)
+/* native entry point of the replay twin */
+#define V_MAIN(fn) int main(void) { setvbuf(stdout, 0, _IONBF, 0); printf("REPLAY: start\n"); fn(); printf("REPLAY: postcondition held\n"); return 0; }
 #else
 #define V_NONDET(type, name) type name
 #define V_ASSUME(c) __CPROVER_assume(c)
 #define V_ASSERT(c, msg) __CPROVER_assert(c, msg)
 /* must be reported FAILED by the verifier: shows the preconditions are satisfiable and the call returns */
 #define V_CANARY(msg) __CPROVER_assert(0, "CANARY " msg)
+#define V_MAIN(fn)
 #endif
 /* files of the /repo working tree are included as "Source/Lib/…/X.c" (the engine passes -I<repo root>) */
 #endif
